@@ -232,6 +232,8 @@ class RowEval:
             el = self.ev(e.elt, row2)
             if el[0] == "rowval" and unparse(el[1]) == "__i__":
                 return ("idx", cond)
+            if el[0] == "rowval" and isinstance(cond, ast.Constant) and cond.value is True and "__i__" not in unparse(el[1]):
+                return ("elem", el[1])            # one value per row, no filter: a per-row array (as a list)
             raise Unsupported("comprehension element")
         raise Unsupported(f"`{unparse(e)[:60]}`")
 
@@ -270,7 +272,20 @@ class RowEval:
             else:
                 raise Unsupported("loop target")
             return row, cond
+        if isinstance(it, ast.Call) and dotted(it.func) == "zip" and isinstance(target, ast.Tuple) and len(target.elts) == len(it.args) \
+                and all(isinstance(t, ast.Name) for t in target.elts):
+            for t, s in zip(target.elts, it.args):
+                row[t.id] = seq_elem(s)
+            return row, cond
         if isinstance(target, ast.Name):
+            v0 = None
+            try:
+                v0 = self.ev(it)
+            except Unsupported:
+                v0 = None
+            if v0 is not None and v0[0] == "elem":
+                row[target.id] = v0[1]          # for e in <per-row array>
+                return row, cond
             if isinstance(it, ast.Call) and dotted(it.func) == "range" and len(it.args) == 1:
                 if self.ev(it.args[0])[0] != "len":
                     raise Unsupported("range over something that is not the number of rows")
